@@ -311,3 +311,60 @@ package redis
 //@   prop C01
 //@   modifies nothing
 //@   ensures @value result != nil && fresh(result) && result.Type == 58 && result.Int == i
+
+// ---- C11: request validation and handlers (no-panic sweep with the facts IsValid establishes) ---------
+
+//@ func (*rawRequest).IsValid
+//@   prop C11 C14
+//@   requires r != nil && r.body != nil
+//@   modifies nothing
+//@   ensures @bulk-array valid ==> validbody(r.body)
+//@   loop 0 invariant b == r.body && b.Type == 42 && len(b.Array) >= 1 && forall k int :: 0 <= k && k <= rangeindex ==> b.Array[k].Type == 36
+
+//@ func (*redisProc).handleRequest
+//@   prop C11 C14 C20
+//@   requires p != nil && req != nil && req.body != nil
+
+//@ func (*redisProc).findHandler
+//@   prop C11 C14
+//@   requires p != nil
+//@   modifies nothing
+//@   ensures @lookup-lowercase result1 == has(p.cmdHdlrs, lower(cmd)) && (result1 ==> result0 == p.cmdHdlrs[lower(cmd)])
+
+//@ func handleSimpleCommand
+//@   prop C11 C03
+//@   requires u != nil && req != nil && validbody(req.body)
+
+//@ func handleEval
+//@   prop C11 C03
+//@   requires u != nil && req != nil && validbody(req.body)
+
+//@ func handleSumResultCommand
+//@   prop C11 C03
+//@   requires u != nil && req != nil && validbody(req.body)
+
+//@ func handleMSet
+//@   prop C11 C03
+//@   requires u != nil && req != nil && validbody(req.body)
+
+//@ func handleMGet
+//@   prop C11 C03
+//@   requires u != nil && req != nil && validbody(req.body)
+
+//@ func newMSetRequest
+//@   prop C11 C03
+//@   requires raw != nil && validbody(raw.body)
+//@   modifies nothing
+//@   ensures @shape result1 == nil ==> result0 != nil && result0.raw == raw && isnil(result0.children) && len(raw.body.Array) >= 3 && len(raw.body.Array) % 2 == 1 && result0.childWait != nil
+
+//@ func newMGetRequest
+//@   prop C11 C03
+//@   requires raw != nil && validbody(raw.body)
+//@   modifies nothing
+//@   ensures @shape result1 == nil ==> result0 != nil && result0.raw == raw && isnil(result0.children) && len(raw.body.Array) >= 2 && result0.childWait != nil
+
+//@ func newSumResultRequest
+//@   prop C11 C03
+//@   requires raw != nil && validbody(raw.body)
+//@   modifies nothing
+//@   ensures @shape result1 == nil ==> result0 != nil && result0.raw == raw && isnil(result0.children) && len(raw.body.Array) >= 2 && result0.childWait != nil
